@@ -408,6 +408,19 @@ def runGuarded (place : RestorePlace) (f forced : String) (body : State → Stat
   | .otherException, .afterTry => (r.1, .otherException)          -- the exception propagates past the plain code
   | _, _ => (restore r.1, .normal)                                 -- completed or ParseError caught: both variants restore
 
+/-- the audited body of `generator._build_dispatch(cls)`: the table is built from `cls.TRANSFORMS` and `dir(cls)` alone; it reads
+    neither `_DISPATCH_CACHE` nor another class — so the value stored under a class key is a function of that class -/
+def expectedBuildDispatchShape : List String := ["0:dispatch: dict[type[exp.Expr], t.Callable[..., str]] = dict(cls.TRANSFORMS)", "0:for attr_name in dir(cls)", "1:if not attr_name.endswith('_sql') or attr_name.startswith('_')", "2:continue", "1:expr_key = attr_name[:-4]", "1:expr_cls = exp.EXPR_CLASSES.get(expr_key)", "1:if expr_cls and expr_cls not in dispatch", "2:dispatch[expr_cls] = getattr(cls, attr_name)", "0:return dispatch", "reads _DISPATCH_CACHE: no", "reads another class (__mro__/__bases__/mro/super): no"]
+
+/-- the variant that hands a class its PARENT's cached entry when there is one (`parent k`), instead of computing its own -/
+def fillGetInherit (build parent : Nat → Nat) (t : Table) (k : Nat) : Nat × Table :=
+  match tget t k with
+  | some v => (v, t)
+  | none =>
+    match tget t (parent k) with
+    | some pv => (pv, (k, pv) :: t)
+    | none => (build k, (k, build k) :: t)
+
 /-- explicit snapshot (NOT regenerated) of the per-call part of Generator.__init__ / Generator.generate before the repair
     "Generator.generate restarts the generated-alias counter": kept only as a witness of why the reset is needed -/
 def preFixGeneratorInit : Assigns := [("unsupported_messages", "[]"), ("_next_name", "name_sequence('_t')")]
